@@ -64,10 +64,13 @@ def _stepcheck(v, tier, seed, mode="th", family="C07"):
     real code against it step by step.  Rejected traces are drift, not alarms."""
     from . import conccheck, stepcheck
     scs = conccheck.scenarios(family, tier, mode)
+    if family == "C07":
+        scs = scs + conccheck.reader_scenarios(mode)
     if tier == "quick" and family == "C07":
         keep = {"|".join(conccheck.cstr(c) for c in calls) for _, calls in conccheck.OBJ_QUICK}
         scs = [s_ for s_ in scs if s_.name.split("/", 2)[2] in keep and len(s_.threads) == 2] + \
-              [s_ for s_ in scs if len(s_.threads) == 3 and "tag:p1:a|tag:p1:b|tag:p2:b" in s_.name]
+              [s_ for s_ in scs if len(s_.threads) == 3 and "tag:p1:a|tag:p1:b|tag:p2:b" in s_.name] + \
+              [s_ for s_ in scs if s_.name.startswith("R/")]
     res = stepcheck.run(scs, nruns=4 if tier == "quick" else 12, seed=seed,
                         do_crash=(tier == "thorough"))
     runs = sum(r_["runs"] for r_ in res)
